@@ -6,13 +6,14 @@ statement failing by itself or a fault injected at any position — leaves the c
 import EngineModel.TracksV1.Txn
 import Proofs.TracksV1Table
 import Proofs.TracksV1AcceptHist
-import Properties.C14
+import Proofs.Txn
 
 namespace EngineModel.TracksV1
 
 open Impl.V1 (GMarker HotCue LoopV Entry Wave Beat Cues Loops)
 open Fl (FOps)
 open Spec.Txn
+open EngineModel.Proofs.Txn (sound_aux durable_aux TInv.init effWrites_all shapeRun_closedRun)
 
 set_option linter.unusedSimpArgs false
 set_option linter.unusedVariables false
@@ -478,7 +479,42 @@ theorem dbUpdate_statements (o : FOps) (d : Db) (id : Int) (x : Snap) (pr : Prep
           · split <;> exact ⟨_, rfl⟩
         · intro _; split <;> rfl
 
-/-! ### the statement run: six commands, fault at any position -/
+/-! ### the statement run: six commands, fault at any position
+
+The two facts about an atomic shape, derived from the lemmas of `Proofs/Txn.lean` exactly as the registered
+`C14_shape_sound` / `C14_all_writes` are (restated here so that this file depends on the transaction theory
+only, not on the concrete operation tables that C14's property file imports). -/
+
+theorem txn_shape_sound {α : Type} (cs : List (Cmd α)) (h : atomicShape (cs.map Cmd.kind) = true)
+    (fault : Option Nat) (auto : Bool) (db : α) :
+    ((call fault auto cs db).raised = true → (call fault auto cs db).conn = Conn.idle db) ∧
+    ((call fault auto cs db).raised = false →
+      (call fault auto cs db).conn.working = none ∧
+      applyAll (effWrites cs [] false) db = some (call fault auto cs db).conn.committed) := by
+  unfold atomicShape at h
+  split at h
+  · rename_i s' hs
+    have hin : s'.inTxn = false := by simpa using h
+    have := sound_aux fault auto db cs ShapeSt.init s' 0 0 (Conn.idle db) (TInv.init db) hs
+    refine ⟨this.1, fun hr => ⟨this.2.1 hr hin, ?_⟩⟩
+    exact durable_aux fault auto cs [] false 0 0 (Conn.idle db) ⟨by simp, by simp [Conn.idle]⟩ hr
+  · cases h
+
+theorem txn_all_writes {α : Type} (cs : List (Cmd α)) (h : atomicShape (cs.map Cmd.kind) = true)
+    (hnr : ∀ x ∈ cs, x.kind ≠ .rollback) (fault : Option Nat) (auto : Bool) (db : α)
+    (hr : (call fault auto cs db).raised = false) :
+    applyAll (writesOf cs) db = some (call fault auto cs db).conn.committed := by
+  have h1 := (txn_shape_sound cs h fault auto db).2 hr
+  have hc : closedRun false (cs.map Cmd.kind) = some false := by
+    unfold atomicShape at h
+    split at h
+    · rename_i s' hs
+      have := shapeRun_closedRun _ _ _ hs
+      simpa [ShapeSt.init, show s'.inTxn = false by simpa using h] using this
+    · cases h
+  have := effWrites_all cs [] false hc hnr
+  rw [this] at h1
+  simpa using h1.2
 
 theorem writeCmds_shape (o : FOps) (s : Schema) (x : Snap) (pr : Prep) (id : Int) (upd : Bool) :
     atomicShape ((writeCmds o s x pr id upd).map Cmd.kind) = true := by
